@@ -69,6 +69,7 @@ def run(ctx):
     thorough = ctx.tier == 'thorough'
     rng = ctx.rng
     cfgs = ['base', 'rel', 'dbg8', 'dbg16'] if thorough else ['base', 'dbg8', 'rel']
+    build.warm(cfgs, [('stack', ['h_stack.cpp'], {})])
     exes = {c: build.build_harness('stack', c, ['h_stack.cpp']) for c in cfgs}
     try:
         rexe = ctx.replay_exe()
